@@ -151,6 +151,11 @@ func scenarios(prop, tier string) []*Scenario {
 			&Scenario{Name: "genesis/configured-invalid", Cfg: hdr.Config{MaxBranchDepth: 144, Invalid: []string{"G/a/a"}}, N: pick(4, 5), Marks: 1, M: 1,
 				Maint: []hdr.Op{opReload}, Slots: []string{"a", "H"}},
 		)
+		// marking between two persistence operations: the trim has to reach the branch files
+		r = append(r,
+			&Scenario{Name: "genesis/save+mark+reload", Cfg: hdr.Config{MaxBranchDepth: 144}, N: pick(4, 5), Marks: 1, M: 2,
+				Maint: []hdr.Op{opSave, opReload}, Slots: []string{"a", "H"}},
+		)
 		// marking on branches whose lower part has been pruned away (Clean / Load with a small depth):
 		// the trim index is relative to the retained part
 		r = append(r,
@@ -205,8 +210,15 @@ func scenarios(prop, tier string) []*Scenario {
 			r = append(r, &Scenario{Name: "splits-at-20-21/prefix-" + itoa(p), Cfg: hdr.Config{MaxBranchDepth: 144, Splits: "synth20", Prefix: p},
 				N: pick(1, 2), M: 1, Maint: []hdr.Op{opClean}, Attach: nil, Slots: []string{"a", "H"}, OnlyTipParents: 3})
 		}
+		// a side branch removed while the tip stays where it is (marked invalid): what the locator
+		// said before must not be what it says afterwards
+		r = append(r, &Scenario{Name: "genesis/mark-side-branch", Cfg: hdr.Config{MaxBranchDepth: 144}, N: pick(4, 5), Marks: 1, M: 1,
+			Maint: []hdr.Op{opClean}})
 		for _, s := range r {
 			s.oracles = []oracle{oracleC19}
+			// locators are requested after every operation of the history (peers are polled between
+			// events), not only in the state under examination
+			s.Cfg.ObserveLocators = true
 		}
 	case "C03":
 		r = append(r,
